@@ -10,6 +10,7 @@ package main
 //   empties   empty vs absent vs null: annotations (nil, {}, empty value, empty key),
 //             empty envelope, "" media type, manifests with annotations / subject / layers /
 //             config absent, null, {} or [], zero descriptors as query, subject and fetch target
+//   many      twelve signatures of one subject
 //   syntax    rarely used legal JSON: duplicate members, keys in another letter case, numbers
 //             as strings / floats / exponents, non-string annotation values, leading white
 //             space, unknown members, null / [] documents, media types differing in case,
@@ -32,7 +33,8 @@ const (
 	nPosition = 4 * (nForeignKinds + nHostileKinds) // kind x position
 	nEmpties  = 24
 	nSyntax   = 24
-	nScripted = nRelist + nPosition + nEmpties + nSyntax
+	nMany     = 4
+	nScripted = nRelist + nPosition + nEmpties + nSyntax + nMany
 )
 
 func (h *H) scripted(id int64) string {
@@ -47,8 +49,26 @@ func (h *H) scripted(id int64) string {
 		h.empties(int(id) - nRelist - nPosition)
 		return "scripted:empties"
 	}
-	h.syntax(int(id) - nRelist - nPosition - nEmpties)
-	return "scripted:syntax"
+	if id < nRelist+nPosition+nEmpties+nSyntax {
+		h.syntax(int(id) - nRelist - nPosition - nEmpties)
+		return "scripted:syntax"
+	}
+	h.many(int(id) - nRelist - nPosition - nEmpties - nSyntax)
+	return "scripted:many"
+}
+
+// many: twelve signatures of ONE subject (the listing grows to its largest size), foreign
+// referrers in between, listed after every fourth push.
+func (h *H) many(k int) {
+	s := h.newSubject(0, k%2 == 0)
+	for i := 0; i < 12; i++ {
+		h.sig(s)
+		if i%4 == 3 {
+			h.foreignKind((k*3+i)%nForeignKinds, s)
+			h.list(s)
+		}
+	}
+	h.sweep()
 }
 
 func (h *H) sig(s ocispec.Descriptor) {
